@@ -315,7 +315,13 @@ func cmdCheck(args []string) int {
 	d := &Discharger{outDir: filepath.Join(o.verif, "out", "vc", prop), timeoutS: o.timeoutS, thorough: o.tier == "thorough"}
 	os.RemoveAll(d.outDir)
 	all = pruneCovers(all)
+	schema := schemaObligations(w, prop)
 	d.Run(w, all, 16)
+	if d.byBack == nil {
+		d.byBack = map[string]int{}
+	}
+	d.byBack["eval"] += len(schema)
+	all = append(all, schema...)
 	all = append(all, failClosed...)
 
 	return report(o, w, prop, seed, all, reports, d, assumed, havocked, inlined, tLoad, tGen, t0)
@@ -333,7 +339,8 @@ func runExec(ex *Exec) (obls []*Obligation, err error) {
 			case subsetErr:
 				err = e
 			default:
-				panic(r)
+				// an engine failure on this function is reported fail-closed, never as a pass
+				err = fmt.Errorf("internal engine error: %v", r)
 			}
 		}
 	}()
